@@ -46,6 +46,13 @@ CHECKS = {
         note=BT + " Terminals are mapped to constant values; derivatives of mapped callables are outside this check.",
         design_ref="DESIGN.md §3 C24",
     ),
+    "C27": dict(
+        engine="UFLBuild",
+        technique="TLC action property AppendOnly on spec/UFLBuild.tla and spec/FormOps.tla (every operation appends to the construction history) + replay of every enumerated expression program with an input guard and of every enumerated form-operator history with a full re-snapshot of all objects after every step",
+        text="The models state that every constructor, pass, form operator and algorithm creates a new object and leaves all existing ones unchanged (checked by TLC as an action property over all behaviours in the bounds). (A) every UFLBuild program (all operators incl. the self-simplifying constructors abs/conj/real/outer/inner/dot, and the passes lower, expand_indices, remove_component_tensors, renumber_indices, remove_complex_nodes, point evaluation) is replayed with repr/hash/shape/free indices of every input compared before and after the public call; (B) all histories of 1-2 (thorough: 3) operations out of 24 (derivative, adjoint, action, lhs, rhs, functional, replace, +, -, scaling, expand_derivatives, lowering, renumbering, integral scaling, restriction propagation, ==, equals, hash, repr, signature, compute_form_data with default and with all options, degree estimation) over 6 initial forms are replayed on real forms and after every step every object created so far must have the repr, hash, signature, arguments, coefficients, constants and per-integral (type, subdomain id, metadata, integrand) it had at creation, and the user's metadata dicts must be unchanged.",
+        note="Trusted: repr/hash/signature as the observables of identity (operand re-pointing to structurally equal objects by == is invisible to them and allowed by C13). Bounded histories; forms pool fixed.",
+        design_ref="DESIGN.md §3 C27",
+    ),
     "C13": dict(
         engine="EqShare",
         technique="TLC model checking of spec/EqShare.tla (heap of expression objects, cached hashes, expr_equals with eager operand re-pointing) + replay of TLC-generated comparison histories on real ufl objects + single-attribute sweep and pickle/eval(repr) round trips",
